@@ -11,8 +11,8 @@ package route
 //@ contract route.(*Router).handlerReturnWithError props C23,C24,C25
 //@   requires r != nil
 //@   requires he.err != nil || err != nil
-//@   ghostupdate statusWrites(w), lastStatus(w), bodyWrites(w) :: statusWrites(w) == old(statusWrites(w)) + 1 && lastStatus(w) == he.status && bodyWrites(w) == old(bodyWrites(w)) + 1
-//@   modifies nothing
+//@   ensures[one-status-one-body] statusWrites(w) == old(statusWrites(w)) + 1 && lastStatus(w) == he.status && bodyWrites(w) == old(bodyWrites(w)) + 1
+//@   modifies statusWrites(w), lastStatus(w), bodyWrites(w)
 
 // ---- C24: the HTTP key middleware (closure returned by apiKeyProcessor)
 //@ contract route.(*Router).apiKeyProcessor$lit1 props C24 havoc
@@ -42,13 +42,32 @@ package route
 
 // Bookkeeping-only contract (its functional contract is C23's business): a call
 // happened, with this key; everything else may change.
-//@ assume route.(*Router).processOTLPRequestBatchMsgp havoc
+// (C23) they never answer success for data they discarded before trying to process it:
+// a failed environment lookup is reported as an error.
+//@ contract route.(*Router).processOTLPRequestBatchMsgp props C23 havoc
+//@   arith math
+//@   requires router != nil
+//@   requires[distinct-sinks] toInt(refOf(router.UpstreamTransmission)) != toInt(refOf(router.PeerTransmission))
+//@   let lookupErr = result1of(router.getEnvironmentName(apiKey))
 //@   ghostupdate otlpN(router), otlpKey(router) :: otlpN(router) == old(otlpN(router)) + 1 && otlpKey(router) == apiKey
-//@ assume route.(*Router).processOTLPRequest havoc
+//@   ensures[lookup-failure-is-an-error] lookupErr != nil ==> result != nil
+//@   ensures[lookup-failure-processes-nothing] lookupErr != nil ==> procN(router) == old(procN(router))
+//@   loop 1 invariant router != nil && toInt(refOf(router.UpstreamTransmission)) != toInt(refOf(router.PeerTransmission))
+//@   loop 2 invariant router != nil && toInt(refOf(router.UpstreamTransmission)) != toInt(refOf(router.PeerTransmission))
+//@ contract route.(*Router).processOTLPRequest props C23 havoc
+//@   arith math
+//@   requires router != nil
+//@   requires[distinct-sinks] toInt(refOf(router.UpstreamTransmission)) != toInt(refOf(router.PeerTransmission))
+//@   let lookupErr = result1of(router.getEnvironmentName(apiKey))
 //@   ghostupdate otlpN(router), otlpKey(router) :: otlpN(router) == old(otlpN(router)) + 1 && otlpKey(router) == apiKey
+//@   ensures[lookup-failure-is-an-error] lookupErr != nil ==> result != nil
+//@   ensures[lookup-failure-processes-nothing] lookupErr != nil ==> procN(router) == old(procN(router))
+//@   loop 1 invariant router != nil && toInt(refOf(router.UpstreamTransmission)) != toInt(refOf(router.PeerTransmission))
+//@   loop 2 invariant router != nil && toInt(refOf(router.UpstreamTransmission)) != toInt(refOf(router.PeerTransmission))
 
 //@ contract route.(*TraceServer).ExportTraceData props C24 havoc
 //@   requires t != nil && t.router != nil
+//@   requires[distinct-sinks] toInt(refOf(t.router.UpstreamTransmission)) != toInt(refOf(t.router.PeerTransmission))
 //@   let cfg = t.router.Config.GetAccessKeyConfig()
 //@   let kid = ite(len(cfg.ReceiveKeyIDs) > 0, t.router.getKeyID(ri.ApiKey), "")
 //@   ensures[processed-only-if-accepted] otlpN(old(t.router)) != old(otlpN(t.router)) ==> keyAccepted(cfg, ri.ApiKey, kid)
@@ -60,6 +79,7 @@ package route
 //@ contract route.customTraceExportHandler props C24 havoc localcalls
 //@   requires isType(srv, *TraceServer) && asPtr(srv, *TraceServer) != nil && asPtr(srv, *TraceServer).router != nil
 //@   requires interceptor == nil
+//@   requires[distinct-sinks] toInt(refOf(asPtr(srv, *TraceServer).router.UpstreamTransmission)) != toInt(refOf(asPtr(srv, *TraceServer).router.PeerTransmission))
 //@   let rt = asPtr(srv, *TraceServer).router
 //@   let clientKey = huskyotlp.GetRequestInfoFromGrpcMetadata(ctx).ApiKey
 //@   let cfg = rt.Config.GetAccessKeyConfig()
@@ -69,10 +89,12 @@ package route
 
 //@ contract route.(*Router).processOTLPRequestWithMsgp props C24 havoc
 //@   requires r != nil
+//@   requires[distinct-sinks] toInt(refOf(r.UpstreamTransmission)) != toInt(refOf(r.PeerTransmission))
 //@   ensures[at-most-once-with-given-key] otlpN(r) != old(otlpN(r)) ==> otlpN(r) == old(otlpN(r)) + 1 && otlpKey(r) == keyToUse
 
 //@ contract route.(*Router).postOTLPTrace props C24 havoc
 //@   requires r != nil && req != nil
+//@   requires[distinct-sinks] toInt(refOf(r.UpstreamTransmission)) != toInt(refOf(r.PeerTransmission))
 //@   let clientKey = huskyotlp.GetRequestInfoFromHttpHeaders(req.Header).ApiKey
 //@   let cfg = r.Config.GetAccessKeyConfig()
 //@   let kid = ite(len(cfg.ReceiveKeyIDs) > 0, r.getKeyID(clientKey), "")
@@ -81,6 +103,7 @@ package route
 
 //@ contract route.(*Router).postOTLPLogs props C24 havoc
 //@   requires r != nil && req != nil
+//@   requires[distinct-sinks] toInt(refOf(r.UpstreamTransmission)) != toInt(refOf(r.PeerTransmission))
 //@   let clientKey = huskyotlp.GetRequestInfoFromHttpHeaders(req.Header).ApiKey
 //@   let cfg = r.Config.GetAccessKeyConfig()
 //@   let kid = ite(len(cfg.ReceiveKeyIDs) > 0, r.getKeyID(clientKey), "")
@@ -89,6 +112,7 @@ package route
 
 //@ contract route.(*LogsServer).Export props C24 havoc
 //@   requires l != nil && l.router != nil
+//@   requires[distinct-sinks] toInt(refOf(l.router.UpstreamTransmission)) != toInt(refOf(l.router.PeerTransmission))
 //@   let rt = l.router
 //@   let clientKey = huskyotlp.GetRequestInfoFromGrpcMetadata(ctx).ApiKey
 //@   let cfg = rt.Config.GetAccessKeyConfig()
@@ -140,18 +164,79 @@ package route
 // `deliveries` counts what left this function towards a sink: upstream queue, peer
 // queue, collector. (A span kept by stress relief is forwarded upstream inside
 // ProcessSpanImmediately.)
-//@ contract route.(*Router).processEvent props C19,C16
+//@ contract route.(*Router).processEvent props C19,C16,C23
 //@   assert owns
 //@   requires r != nil && ev != nil && owns(ev)
 //@   let e0 = ev
+//@   ghostupdate procN(r) :: procN(r) == old(procN(r)) + 1
 //@   requires[distinct-sinks] toInt(refOf(r.UpstreamTransmission)) != toInt(refOf(r.PeerTransmission))
 //@   ensures[at-most-one-of-each] 0 <= enqN(r.UpstreamTransmission) - old(enqN(r.UpstreamTransmission)) && enqN(r.UpstreamTransmission) - old(enqN(r.UpstreamTransmission)) <= 1 && 0 <= enqN(r.PeerTransmission) - old(enqN(r.PeerTransmission)) && enqN(r.PeerTransmission) - old(enqN(r.PeerTransmission)) <= 1 && 0 <= addedN(r.Collector) - old(addedN(r.Collector)) && addedN(r.Collector) - old(addedN(r.Collector)) <= 1
 //@   ensures[one-data-route] (enqN(r.UpstreamTransmission) - old(enqN(r.UpstreamTransmission))) + (addedN(r.Collector) - old(addedN(r.Collector))) + ite(enqN(r.PeerTransmission) != old(enqN(r.PeerTransmission)) && !enqProbe(r.PeerTransmission), 1, 0) + (immN(r.Collector) - old(immN(r.Collector))) <= 1
 //@   ensures[error-means-nothing-forwarded-upstream-or-to-peer] result != nil ==> enqN(r.UpstreamTransmission) == old(enqN(r.UpstreamTransmission)) && enqN(r.PeerTransmission) == old(enqN(r.PeerTransmission))
+//@   ensures[error-means-nothing-buffered] result != nil ==> bufN(r.Collector) == old(bufN(r.Collector)) && immN(r.Collector) == old(immN(r.Collector))
 //@   ensures[no-trace-id-goes-upstream] result == nil && e0.Data.MetaTraceID == "" && !(e0.Data.MetaRefineryProbe.HasValue && e0.Data.MetaRefineryProbe.Value) ==> enqN(r.UpstreamTransmission) == old(enqN(r.UpstreamTransmission)) + 1 && toInt(enqLast(r.UpstreamTransmission)) == toInt(e0) && enqN(r.PeerTransmission) == old(enqN(r.PeerTransmission)) && addedN(r.Collector) == old(addedN(r.Collector))
 //@   ensures[peer-forward-keeps-key-and-dataset] enqN(r.PeerTransmission) != old(enqN(r.PeerTransmission)) ==> enqKey(r.PeerTransmission) == old(ev.APIKey) && enqDataset(r.PeerTransmission) == old(ev.Dataset) && enqHost(r.PeerTransmission) == r.Sharder.WhichShard(e0.Data.MetaTraceID).GetAddress() && !r.Sharder.WhichShard(e0.Data.MetaTraceID).Equals(r.Sharder.MyShard())
 //@   ensures[probes-are-discarded] result == nil && e0.Data.MetaRefineryProbe.HasValue && e0.Data.MetaRefineryProbe.Value ==> enqN(r.UpstreamTransmission) == old(enqN(r.UpstreamTransmission)) && enqN(r.PeerTransmission) == old(enqN(r.PeerTransmission)) && addedN(r.Collector) == old(addedN(r.Collector)) && immN(r.Collector) == old(immN(r.Collector))
 //@   ensures[own-trace-goes-to-the-collector] e0.Data.MetaTraceID != "" && !(e0.Data.MetaRefineryProbe.HasValue && e0.Data.MetaRefineryProbe.Value) && !r.Collector.Stressed() && r.Sharder.WhichShard(e0.Data.MetaTraceID).Equals(r.Sharder.MyShard()) && (result == nil || addedN(r.Collector) != old(addedN(r.Collector))) ==> addedN(r.Collector) == old(addedN(r.Collector)) + 1 && toInt(addedLast(r.Collector)) == toInt(e0) && enqN(r.UpstreamTransmission) == old(enqN(r.UpstreamTransmission)) && enqN(r.PeerTransmission) == old(enqN(r.PeerTransmission))
 //@   ensures[never-a-probe-upstream] enqN(r.UpstreamTransmission) != old(enqN(r.UpstreamTransmission)) ==> !enqProbe(r.UpstreamTransmission)
-//@   modifies ev.APIHost, ev.Data, ev.dataSize, all(enqN), all(enqLast), all(enqHost), all(enqKey), all(enqDataset), all(enqProbe), all(owns), all(addedN), all(addedLast), all(immN)
+//@   modifies ev.APIHost, ev.Data, ev.dataSize, all(enqN), all(enqLast), all(enqHost), all(enqKey), all(enqDataset), all(enqProbe), all(owns), all(addedN), all(addedLast), all(bufN), all(immN), procN(r)
 //@ owned types.Event
+// The router's sinks are set once by dependency injection before any request is served
+// (assumed; a write anywhere in code under contract is a failed obligation).
+//@ final route.Router.UpstreamTransmission
+//@ final route.Router.PeerTransmission
+//@ final route.TraceServer.router
+//@ final route.LogsServer.router
+
+// ---- C23: responses reflect what happened to the data.
+// procN(router): how many events were handed to processEvent.
+//@ ghost procN(ref) int
+
+// Request decoding helpers: they read the request and allocate new objects; they do not
+// modify the router, process events or write to the response (assumed frames).
+//@ assume route.(*Router).readAndCloseMaybeCompressedBody
+//@ assume route.getDatasetFromRequest
+//@ assume route.(*Router).getEnvironmentName getter
+//@ assume route.newBatchedEvents
+//@   ensures result != nil && isFresh(result)
+//@ assume route.unmarshal
+//@ assume route.getUserAgentFromRequest
+//@ assume route.addIncomingUserAgent
+//@ assume route.recycleHTTPBodyBuffer
+// Payload construction and decoding allocate and fill new objects only (assumed frames).
+//@ assume types.NewPayload
+//@ assume types.NewCoreFieldsUnmarshaler
+//@ assume types.CoreFieldsUnmarshaler.UnmarshalMsgpEventMetadataOnly
+//@   modifies *payload
+
+//@ contract route.(*Router).batch props C23 havocheap
+//@   requires r != nil && req != nil
+//@   requires[distinct-sinks] toInt(refOf(r.UpstreamTransmission)) != toInt(refOf(r.PeerTransmission))
+//@   ensures[one-status-at-most] statusWrites(w) <= old(statusWrites(w)) + 1
+//@   ensures[error-status-means-nothing-processed] statusWrites(w) != old(statusWrites(w)) ==> procN(r) == old(procN(r))
+//@   ensures[one-body] bodyWrites(w) == old(bodyWrites(w)) + 1
+//@   loop 1 invariant statusWrites(w) == old(statusWrites(w)) && bodyWrites(w) == old(bodyWrites(w)) && len(batchedResponses) == iter
+//@   modifies all(statusWrites), all(lastStatus), all(bodyWrites), all(procN), all(enqN), all(enqLast), all(enqHost), all(enqKey), all(enqDataset), all(enqProbe), all(owns), all(addedN), all(addedLast), all(bufN), all(immN), all(hdr)
+
+// One event of a batch: its response entry says 202 / 429 / 400 exactly according to what
+// processing that event returned.
+//@ fragment route.(*Router).batch loop 1 body props C23 havocheap
+//@   requires r != nil
+//@   requires[distinct-sinks] toInt(refOf(r.UpstreamTransmission)) != toInt(refOf(r.PeerTransmission))
+//@   ensures[per-event-status] resp.Status == ite(errors.Is(err, collect.ErrWouldBlock), 429, ite(err != nil, 400, 202))
+//@   ensures[one-entry-per-event] len(batchedResponses) == old(len(batchedResponses)) + 1 && batchedResponses[len(batchedResponses)-1] == &resp
+//@   ensures[empty-events-are-not-processed] bev.Data.isEmpty ==> procN(r) == old(procN(r)) && err != nil
+//@   ensures[non-empty-events-processed-once] !bev.Data.isEmpty ==> procN(r) == old(procN(r)) + 1
+//@   modifies all(statusWrites), all(lastStatus), all(bodyWrites), all(procN), all(enqN), all(enqLast), all(enqHost), all(enqKey), all(enqDataset), all(enqProbe), all(owns), all(addedN), all(addedLast), all(bufN), all(immN), all(hdr)
+
+//@ contract route.(*Router).event props C23 havocheap
+//@   requires r != nil && req != nil
+//@   requires[distinct-sinks] toInt(refOf(r.UpstreamTransmission)) != toInt(refOf(r.PeerTransmission))
+//@   ensures[one-status-at-most] statusWrites(w) <= old(statusWrites(w)) + 1
+//@   ensures[processed-at-most-once] procN(r) <= old(procN(r)) + 1
+//@   ensures[decode-failure-means-nothing-processed] procN(r) == old(procN(r)) ==> statusWrites(w) == old(statusWrites(w)) + 1
+//@   ensures[error-status-means-nothing-kept] statusWrites(w) != old(statusWrites(w)) ==> enqN(r.UpstreamTransmission) == old(enqN(r.UpstreamTransmission)) && enqN(r.PeerTransmission) == old(enqN(r.PeerTransmission)) && bufN(r.Collector) == old(bufN(r.Collector)) && immN(r.Collector) == old(immN(r.Collector))
+//@   modifies all(statusWrites), all(lastStatus), all(bodyWrites), all(procN), all(enqN), all(enqLast), all(enqHost), all(enqKey), all(enqDataset), all(enqProbe), all(owns), all(addedN), all(addedLast), all(bufN), all(immN), all(hdr)
+//@ contract route.(*batchedEvent).getSampleRate inline
+//@ assume route.(*Router).requestToEvent
+//@   ensures result1 == nil ==> result0 != nil && owns(result0) && isFresh(result0)
